@@ -178,6 +178,12 @@ theorem g_stack_check_some (sp num size : Int)
     (h : guard_stack_push_some_svalues sp num (endOfStack 0 size) = false) : sp + num < size - 5 := by
   simp [guard_stack_push_some_svalues, endOfStack] at h; omega
 
+/-- merge_arg_lists (bound arguments of a function pointer): after the test, `sp += num_arr_arg` stays below the
+    slack (repaired: was an unchecked push of a run-time count) -/
+theorem g_stack_check_merge (sp num size : Int)
+    (h : guard_stack_merge_arg_lists sp num (endOfStack 0 size) = false) : sp + num < size - 5 := by
+  simp [guard_stack_merge_arg_lists, endOfStack] at h; omega
+
 theorem g_stack_check_transfer (sp num size : Int)
     (h : guard_stack_transfer_push sp num (endOfStack 0 size) = false) : sp + num < size - 5 := by
   simp [guard_stack_transfer_push, endOfStack] at h; omega
